@@ -158,12 +158,18 @@ def capacity_history(ctx, ge, cfg, npatterns):
         return
     pats = []
     seen = set()
-    while len(pats) < npatterns and len(seen) < 20000:
+    attempts = 0
+    while len(pats) < npatterns and attempts < 20 * npatterns:
+        # (bounded: a unary operator of a small algebra has fewer distinct one- and two-key patterns than asked for)
+        attempts += 1
         p_ = tuple(tuple(rng.sample(canon, rng.randint(1, 2))) for _ in range(arity))
         if p_ in seen:
             continue
         seen.add(p_)
         pats.append(p_)
+    if len(pats) < 150:
+        ctx.count('capacity_history_too_few_distinct_patterns')
+        return
 
     def call(p_):
         return target(*[MultiVector.fromkeysvalues(alg, ks, [2 + i for i in range(len(ks))]) for ks in p_])
